@@ -67,6 +67,9 @@ ASSUMPTIONS = [
     "single against double precision, 2e-6 single against single",
     "fmm.depth is accepted by ExafmmInterface.__init__ and dropped there; it is settable in the histories but is not part "
     "of the configuration",
+    "not modelled: Grid._barycentric_grid / Space.barycentric_representation memoisation (no parameter enters), the OpenCL "
+    "device interface, assembly.always_promote_to_double, fmm.dense_evaluation / debug / near_field_representation "
+    "(read from GLOBAL_PARAMETERS at every evaluation by design)",
 ]
 RULE = ("one case per API call of a history (<= 8 calls quick, <= 20 thorough); a case is NON-TRIVIAL when it is the "
         "first use (weak_form / strong_form / mass_matrix / potential construction+evaluation) of an operator and (a) the "
@@ -973,7 +976,7 @@ def _prepare(ctx, deep=False):
     if deep:
         hs = hs[len(FIXED_HISTORIES):]
     plan = Plan(st["variant"], hs)
-    plan.launch(ctx, max_procs=ctx.pick(4, 8), per_proc=ctx.pick(12, 3))
+    plan.launch(ctx, max_procs=ctx.pick(4, 8), per_proc=ctx.pick(12, 4))
     st["deep_plan" if deep else "plan"] = plan
     return plan
 
@@ -1133,8 +1136,6 @@ def oracle(ctx, plan=None):
     res.stats["reference_jobs"] = len(plan.jobs)
     for f in getattr(plan, "ref_failures", []):
         res.notes.append(f"reference interpreter failed: {f}")
-        res.counterexample("reference-interpreter-failed", "a fresh interpreter could not compute a reference from the "
-                           "explicit arguments: " + f["tail"][-300:], jobs=f["ids"][:4])
     for jid, d in getattr(plan, "repeat_diffs", []):
         res.case(("ref-repeat", jid), nontrivial=False)
         if d > TOL:
@@ -1144,8 +1145,8 @@ def oracle(ctx, plan=None):
     for hi, (h, r, exp, meta, spec) in enumerate(zip(plan.histories, results, plan.expect, plan.meta, plan.spec)):
         for n in r["notes"]:
             res.counterexample("weak-form-not-memoised" if n["kind"] == "not-memoised" else "mass-matrix-not-memoised",
-                               "a repeated weak_form()/mass_matrix() returned a different object", history=line_of(h),
-                               **n)
+                               f"history `{line_of(h)}`: a repeated weak_form()/mass_matrix() returned a different "
+                               f"object ({n})", history=line_of(h), variant=plan.variant)
         for i, (op, v, e) in enumerate(zip(h, r["vals"], exp)):
             if v is None or not e:
                 continue
@@ -1184,6 +1185,10 @@ def oracle(ctx, plan=None):
                                        f"differs from the {what} ({jid}) by {d:.3e} relative (tolerance {tol:g}); "
                                        f"specification: {spec[i]}", history=line_of(h), step=i, job=jid, error=d,
                                        variant=plan.variant)
+    if getattr(plan, "ref_failures", []) and not res.counterexamples:
+        # nothing failed in the histories themselves, so a reference that could not be computed is an infrastructure
+        # problem (exit 2), not a violation
+        raise RuntimeError("reference interpreter failed: " + json.dumps(plan.ref_failures)[:1500])
     res.stats["worst_relative_difference_among_passing"] = {k: float(f"{v:.3e}") for k, v in worst.items()}
     # sensitivity of the oracle: references for different regular orders must differ, otherwise a parameter that is
     # ignored everywhere could not be seen
